@@ -13,25 +13,38 @@ import itertools
 from mc import driver
 from checks import c04_model as model
 
-RULE = ("large: cores = every pair of sequences of length 1..2 over 3 core "
-        "points (3 km apart, seconds 8, 12, 18 around the bin edges at 10 "
-        "and 15 s; quick: length 1) embedded in 1001 x 1000 filler points "
+RULE = ("large: cores = every pair of sequences of length 1..2 over 6 core "
+        "points (3 km apart, seconds 8, 12, 18, 22 around the bin edges and "
+        "10, 20 exactly on bin labels = candidate-window ends; quick: length "
+        "1, plus on one side every length-2 sequence holding an on-label "
+        "point) embedded in 1001 x 1000 filler points "
         "(either side the larger one), the cores lying in the middle of / "
         "before / after the filler's time range (quick: middle, before), x "
         "bin_factor 1, 2, 0.5 and, in the middle placement (thorough), "
         "identity and (0 1) shuffles, leaf_size 1 and magnitude_factor 1.")
 
-CORE = {"U": (8, 10.0, 0.0), "V": (12, 10.027, 0.0), "W": (18, 10.0, 0.0)}
+# Seconds 10 and 20 are exact bin labels (EPOCH is 10 s before midnight, bins
+# are aligned to midnight): a point exactly on a label is also exactly on the
+# end of the candidate window (label - max_interval) of the next bin.
+CORE = {"U": (8, 10.0, 0.0), "V": (12, 10.027, 0.0), "W": (18, 10.0, 0.0),
+        "A": (10, 10.0, 0.0), "B": (20, 10.027, 0.0), "C": (22, 10.0, 0.0)}
+ON_LABEL = "AB"
 PLACEMENTS = ("middle", "first", "last")
 BIN_CONFIGS = (dict(bin=1), dict(bin=2), dict(bin=0.5))
 MORE_CONFIGS = (dict(shuffle="id"), dict(shuffle="t1"), dict(leaf=1),
                 dict(mf=1))
 
 
-def core_sequences(maxlen):
+def core_sequences(maxlen, with_label_pairs=False):
+    """All sequences up to maxlen; with_label_pairs adds the sequences of
+    length 2 that contain a point exactly on a bin label (quick tier)."""
     for n in range(1, maxlen + 1):
         for s in itertools.product(sorted(CORE), repeat=n):
             yield "".join(s)
+    if with_label_pairs and maxlen < 2:
+        for s in itertools.product(sorted(CORE), repeat=2):
+            if set(s) & set(ON_LABEL):
+                yield "".join(s)
 
 
 def shards(tier):
@@ -39,7 +52,8 @@ def shards(tier):
     return [("large", tier, (placement, bigger, core1))
             for placement in (PLACEMENTS[:2] if quick else PLACEMENTS)
             for bigger in (1, 2)
-            for core1 in core_sequences(1 if quick else 2)]
+            for core1 in core_sequences(1 if quick else 2,
+                                        quick and placement == "middle")]
 
 
 def filler(n, id0, lat, placement, split):
@@ -111,7 +125,11 @@ def run_shard(shard):
     configs = BIN_CONFIGS + (
         MORE_CONFIGS if placement == "middle" and not quick else ())
     last = None
-    for core2 in core_sequences(1 if quick else 2):
+    # quick: a longer core (with an on-label point) on either side, the other
+    # side a single point
+    for core2 in core_sequences(1 if quick else 2,
+                                quick and placement == "middle"
+                                and len(core1) == 1):
         for changes in configs:
             taken, nontrivial, bad = evaluate(placement, bigger, core1,
                                               core2, changes)
